@@ -116,7 +116,9 @@ def check_call(u, fn, args, self_obj=None, extra_env=None):
     except Exception:
       rs[exc] = None
   mr = {}
-  for exc, cond in u.get('may_raise', {}).items():
+  # native_may_raise: a sharper raise condition stated for the bounded back end only (the deductive tier keeps the
+  # weaker `may_raise`, e.g. where the sharper one needs set cardinalities)
+  for exc, cond in u.get('native_may_raise', u.get('may_raise', {})).items():
     code, _ = compile_clause(cond)
     try:
       mr[exc] = bool(eval(code, env))
@@ -127,14 +129,18 @@ def check_call(u, fn, args, self_obj=None, extra_env=None):
     if u.get('yields'):
       result = list(result)
   except AssertionError as ex:
-    if u.get('asserts') == 'diagnostic' and rs.get('AssertionError'):
+    if u.get('asserts') == 'diagnostic' and (rs.get('AssertionError') or mr.get('AssertionError')):
       return 'ok', ('raise', 'AssertionError')
+    if u.get('asserts') == 'diagnostic' and mr.get('AssertionError') is False:
+      raise Violation('raise-only-if', 'AssertionError', u.get('native_may_raise', u.get('may_raise', {}))['AssertionError'],
+                      'raised AssertionError: %s' % str(ex)[:200])
     raise Violation('assert', 0, str(ex)[:200], 'assertion failed in the real code')
   except Exception as ex:
     name = type(ex).__name__
     if name in mr:
       if mr[name] is False:
-        raise Violation('raise-only-if', name, u['may_raise'][name], 'raised %s: %s' % (name, str(ex)[:200]))
+        raise Violation('raise-only-if', name, u.get('native_may_raise', u.get('may_raise', {}))[name],
+                        'raised %s: %s' % (name, str(ex)[:200]))
       return 'ok', ('raise', name)
     if name in rs:
       if rs[name] is False:
